@@ -288,6 +288,9 @@ void suite_cksum(int tier) {
         size_t len = rnd(2) ? 1 + rnd(4 * c.k * cfg_wbytes(c)) : gen_len(c, 0);
         unsigned char *d = gen_data(len, (int)rnd(3));
         /* encode under the real environment value; the model is told what the property says it means */
+        /* the switch is read when a fragment is written, not when the instance is created: every second case
+           creates the instance while the switch means the opposite */
+        if (t & 1) { setenv_legacy(ENVSET[ev] ? (rnd(2) ? NULL : "0") : "1"); cfg_desc(c); stat_add("cksum.created_under_opposite_switch", 1); }
         setenv_legacy(ENVV[ev]);
         int desc = cfg_desc(c);
         char **ed = NULL, **ep = NULL; uint64_t flen = 0;
@@ -437,7 +440,13 @@ void suite_endian(int tier) {
         c.ct = CT[t % 6];
         if (c.k + c.m > 10 && c.be != 3) { c.k = 1 + rnd(5); c.m = 1 + rnd(3); c.hd = c.m; }
         stripe_t s;
-        if (stripe_make(&s, c, 1 + rnd(200), 0, LG[t % 6]) != 0) continue;
+        /* payload sizes whose bytes have the top bit set in the low, the second or both positions: a byte-swapped
+           field read raw (before the byte order is known) then looks negative / enormous */
+        size_t elen = 1 + rnd(200);
+        if (t % 4 == 1) elen = (size_t)c.k * (128 + rnd(120));
+        else if (t % 4 == 3) elen = (size_t)c.k * ((rnd(2) ? 0x8000 : 0x8080) + rnd(0x70));
+        if (stripe_make(&s, c, elen, 0, LG[t % 6]) != 0) continue;
+        { char key[48]; snprintf(key, sizeof key, "endian.payload_size_hibits_%d%d", (int)(((s.flen - HDR) >> 7) & 1), (int)(((s.flen - HDR) >> 15) & 1)); stat_add(key, 1); }
         stat_add(LG[t % 6] ? "endian.legacy_writer" : "endian.zlib_writer", 1);
         unsigned char *nat = malloc(s.flen), *twin = malloc(s.flen);
         for (int i = 0; i < s.n; i++) {
@@ -471,6 +480,7 @@ void suite_endian(int tier) {
             if (r % 4 == 1) nat[54] = (unsigned char)rnd(256);                 /* backend id */
             if (c.ct != 2) for (int w = 0; w < 8; w++) wr32(nat + 21 + 4 * w, (uint32_t)rnd64());   /* checksum words */
             if (r % 5 == 2) wr32(nat + 8, (uint32_t)rnd64());                  /* backend metadata size */
+            if (c.ct != 2 && r % 2 == 0) wr32(nat + 4, (uint32_t)(rnd64() >> rnd(32)));  /* payload size (not used to read the payload without a CRC) */
             reseal(nat);
             memcpy(twin, nat, s.flen); make_twin(twin);
             op_meta(nat, s.flen, 0); op_meta(twin, s.flen, 0);
